@@ -23,13 +23,17 @@
 //	                 bytes have arrived when Close is called; the rest is sent after the release, in slices with pauses;
 //	                 the round tripper streams the body and checks length + SHA-256 (at rt the exchange is "parked"
 //	                 inside the round tripper's read of the body)
+//	               a b  the exchange (and the warm-ups of that connection) go to a REAL origin A / B (an http.Server on
+//	                 127.0.0.1) through the proxy's own default http.Transport and dial function, so that the state of
+//	                 the upstream connection pool matters: cold (warm-ups 0), warm-idle (warm-ups 1), warm-but-busy
+//	                 (several connections to the same origin released together: async), different origins
 //	               g (write only) the client goes away instead of reading the response
 //	    async    (token) release all parked exchanges at once instead of one after the other
 //	    R: order in which the parked exchanges are released after Close was called
 //	    sc:<ms>  (token) every conn.Close() done by the proxy takes <ms> (X is recorded when it completed)
 //	W sd:<seed> ms:<budget> nl:<listeners>         child process: rounds of Close racing accepts on in-memory listeners
 //	                                               (OUT: | NOPANIC, or | PANIC:<message>)
-//	S n:<k> sd:<seed> [slow] [sc:<ms>]             unforced stress: k clients racing Accept/serve against Close
+//	S n:<k> sd:<seed> [slow] [sc:<ms>] [org]       unforced stress (org: every request goes to a real origin through the transport): k clients racing Accept/serve against Close
 //
 // OUT tokens: the trace, then "|", then one K<id>=<responses>:<end> per
 // accepted connection (responses: m marked complete, u unmarked complete,
@@ -44,6 +48,7 @@
 //	A<c> Accept returned   h<c> client sent half a request head (only when the connection is known to be idle)
 //	q<c> reqmod entered    t<c> round trip entered   s<c> resmod entered   e<c> resmod returning
 //	T<c>+ / T<c>-  the round trip returns a response / an error     P<c>+ / P<c>-  the head about to be written is / is not a 502
+//	T<c>? the round trip towards a real, reachable origin failed (the client gets a proxy-made 502 instead of its answer)
 //	T<c>! the round tripper could not read the complete, byte-identical request body (upload scenarios)
 //	F<c> a socket write of the response failed     G<c> the client went away
 //	W<c>+ / W<c>-  first socket write of a response with / without Connection: close
@@ -396,7 +401,50 @@ func bodyFor(n int) []byte {
 	return b
 }
 
-type upstream struct{ h *run }
+type upstream struct {
+	h    *run
+	orig http.RoundTripper // the proxy's own default transport (dials through the proxy's dial function)
+}
+
+// origin is a real HTTP server the proxy reaches through its transport.
+type origin struct {
+	l    net.Listener
+	srv  *http.Server
+	addr string
+}
+
+func startOrigin() (*origin, error) {
+	l, err := net.Listen("tcp", "127.0.0.1:0")
+	if err != nil {
+		return nil, err
+	}
+	o := &origin{l: l, addr: l.Addr().String()}
+	o.srv = &http.Server{Handler: http.HandlerFunc(func(w http.ResponseWriter, r *http.Request) {
+		switch {
+		case strings.HasPrefix(r.URL.Path, "/b/"):
+			n, _ := strconv.Atoi(strings.TrimPrefix(r.URL.Path, "/b/"))
+			w.Header().Set("Content-Type", "text/plain")
+			w.Header().Set("Content-Length", strconv.Itoa(n))
+			w.Write(bodyFor(n))
+		case strings.HasPrefix(r.URL.Path, "/u/"):
+			total, _ := strconv.Atoi(strings.TrimPrefix(r.URL.Path, "/u/"))
+			hsh := sha256.New()
+			got, err := io.Copy(hsh, r.Body)
+			want := sha256.Sum256(upBody(total))
+			if err != nil || int(got) != total || !bytes.Equal(hsh.Sum(nil), want[:]) {
+				http.Error(w, "upload differs", 400)
+				return
+			}
+			w.Header().Set("Content-Type", "text/plain")
+			w.Header().Set("Content-Length", strconv.Itoa(upReply))
+			w.Write(bodyFor(upReply))
+		default:
+			http.NotFound(w, r)
+		}
+	})}
+	go o.srv.Serve(l)
+	return o, nil
+}
 
 func (u upstream) RoundTrip(req *http.Request) (*http.Response, error) {
 	cr := u.h.gate("rt", req.RemoteAddr)
@@ -413,6 +461,20 @@ func (u upstream) RoundTrip(req *http.Request) (*http.Response, error) {
 		if err != nil {
 			u.h.add(fmt.Sprintf("T%d-", cr.id))
 			return nil, err
+		}
+		if req.URL.Host != "h.test" {
+			// a real origin, reached through the proxy's own transport and dial function
+			res, err := u.orig.RoundTrip(req)
+			if err != nil {
+				u.h.add(fmt.Sprintf("T%d?", cr.id))
+				return nil, err
+			}
+			if res.StatusCode != 200 {
+				u.h.add(fmt.Sprintf("T%d!", cr.id))
+			} else {
+				u.h.add(fmt.Sprintf("T%d+", cr.id))
+			}
+			return res, nil
 		}
 		if strings.HasPrefix(req.URL.Path, "/u/") {
 			// an origin that reads the whole upload: length and hash must be the client's
@@ -477,6 +539,7 @@ type client struct {
 	end   byte   // c o
 	sizes []int  // expected body sizes in order; -1 = a 502 with a Warning header and no body
 	gone  bool   // the client went away on purpose
+	host  string // authority of the request URLs: "h.test" (answered by the harness round tripper) or a real origin
 	done  chan struct{}
 	once  sync.Once
 }
@@ -486,14 +549,14 @@ func dial(addr string) (*client, error) {
 	if err != nil {
 		return nil, err
 	}
-	return &client{c: c, br: bufio.NewReaderSize(c, 4096), local: c.LocalAddr().String(), end: 'o', done: make(chan struct{})}, nil
+	return &client{host: "h.test", c: c, br: bufio.NewReaderSize(c, 4096), local: c.LocalAddr().String(), end: 'o', done: make(chan struct{})}, nil
 }
 
 func (cl *client) send(n int) {
 	cl.mu.Lock()
 	cl.sizes = append(cl.sizes, n)
 	cl.mu.Unlock()
-	fmt.Fprintf(cl.c, "GET http://h.test/b/%d HTTP/1.1\r\nHost: h.test\r\n\r\n", n)
+	fmt.Fprintf(cl.c, "GET http://%s/b/%d HTTP/1.1\r\nHost: %s\r\n\r\n", cl.host, n, cl.host)
 }
 
 // sendUpload writes the head of a POST and the first upFirst bytes of its body in one write.
@@ -504,12 +567,12 @@ func (cl *client) sendUpload(total int, chunked bool) {
 	var b bytes.Buffer
 	body := upBody(total)
 	if chunked {
-		fmt.Fprintf(&b, "POST http://h.test/u/%d HTTP/1.1\r\nHost: h.test\r\nTransfer-Encoding: chunked\r\n\r\n", total)
+		fmt.Fprintf(&b, "POST http://%s/u/%d HTTP/1.1\r\nHost: %s\r\nTransfer-Encoding: chunked\r\n\r\n", cl.host, total, cl.host)
 		fmt.Fprintf(&b, "%x\r\n", upFirst)
 		b.Write(body[:upFirst])
 		b.WriteString("\r\n")
 	} else {
-		fmt.Fprintf(&b, "POST http://h.test/u/%d HTTP/1.1\r\nHost: h.test\r\nContent-Length: %d\r\n\r\n", total, total)
+		fmt.Fprintf(&b, "POST http://%s/u/%d HTTP/1.1\r\nHost: %s\r\nContent-Length: %d\r\n\r\n", cl.host, total, cl.host, total)
 		b.Write(body[:upFirst])
 	}
 	cl.c.Write(b.Bytes())
@@ -565,7 +628,7 @@ func (cl *client) sendPipelined(ns ...int) {
 	cl.mu.Lock()
 	for _, n := range ns {
 		cl.sizes = append(cl.sizes, n)
-		fmt.Fprintf(&b, "GET http://h.test/b/%d HTTP/1.1\r\nHost: h.test\r\n\r\n", n)
+		fmt.Fprintf(&b, "GET http://%s/b/%d HTTP/1.1\r\nHost: %s\r\n\r\n", cl.host, n, cl.host)
 	}
 	cl.mu.Unlock()
 	cl.c.Write(b.Bytes())
@@ -580,7 +643,7 @@ func (cl *client) sendThenHalf(n int) {
 	cl.mu.Lock()
 	cl.sizes = append(cl.sizes, n)
 	cl.mu.Unlock()
-	fmt.Fprintf(cl.c, "GET http://h.test/b/%d HTTP/1.1\r\nHost: h.test\r\n\r\n%s", n, halfHead)
+	fmt.Fprintf(cl.c, "GET http://%s/b/%d HTTP/1.1\r\nHost: %s\r\n\r\n%s", cl.host, n, cl.host, halfHead)
 }
 
 // sendRest completes the half head.
@@ -680,6 +743,20 @@ type env struct {
 	l     net.Listener
 	addr  string
 	serve chan struct{}
+	orig  http.RoundTripper
+	orgs  []*origin
+}
+
+// originAddr starts real origin k on first use.
+func (e *env) originAddr(k int) string {
+	for len(e.orgs) <= k {
+		o, err := startOrigin()
+		if err != nil {
+			return "127.0.0.1:1"
+		}
+		e.orgs = append(e.orgs, o)
+	}
+	return e.orgs[k].addr
 }
 
 func start(closeDelay time.Duration) (*env, error) {
@@ -690,10 +767,11 @@ func start(closeDelay time.Duration) (*env, error) {
 	h := newRun()
 	h.closeDelay = closeDelay
 	p := martian.NewProxy()
-	p.SetRoundTripper(upstream{h})
+	orig := p.GetRoundTripper()
+	p.SetRoundTripper(upstream{h, orig})
 	p.SetRequestModifier(reqMod{h})
 	p.SetResponseModifier(resMod{h})
-	e := &env{h: h, p: p, l: l, addr: l.Addr().String(), serve: make(chan struct{})}
+	e := &env{h: h, p: p, l: l, addr: l.Addr().String(), serve: make(chan struct{}), orig: orig}
 	go func() {
 		p.Serve(&recListener{l, h})
 		close(e.serve)
@@ -791,11 +869,11 @@ func parseForced(in []string) (sz int, specs []*spec, order []int, async bool, s
 			allowed := ""
 			switch pw[0] {
 			case "reqmod", "rt":
-				allowed = "qkxyzruv"
+				allowed = "qkxyzruvab"
 			case "resmod":
-				allowed = "qkxyzr"
+				allowed = "qkxyzrab"
 			case "write":
-				allowed = "qrg"
+				allowed = "qrgab"
 			}
 			var ob []byte
 			for i := 0; i < len(outc); i++ {
@@ -817,6 +895,13 @@ func parseForced(in []string) (sz int, specs []*spec, order []int, async bool, s
 					ob = []byte(strings.Replace(string(ob), "v", "", -1))
 				}
 				pipe, coal = false, false
+				if pw[0] == "rt" {
+					// parked inside the harness round tripper's own read of the body
+					ob = []byte(strings.NewReplacer("a", "", "b", "").Replace(string(ob)))
+				}
+			}
+			if strings.Contains(string(ob), "a") {
+				ob = []byte(strings.Replace(string(ob), "b", "", -1))
 			}
 			specs = append(specs, &spec{point: pw[0], warm: w, pipe: pipe && !coal && isParked(pw[0]),
 				coal: coal && isParked(pw[0]), after: after, out: string(ob)})
@@ -895,6 +980,11 @@ func runForced(in []string) (out []string) {
 		}
 		all = append(all, cl)
 		s.cl = cl
+		if strings.Contains(s.out, "a") {
+			cl.host = e.originAddr(0)
+		} else if strings.Contains(s.out, "b") {
+			cl.host = e.originAddr(1)
+		}
 		s.cr = e.awaitAccept(cl, 5*time.Second)
 		if s.cr == nil {
 			return []string{"ENVFAIL"}
@@ -1135,6 +1225,12 @@ func (e *env) finish(all []*client, flags []string) []string {
 	})
 	time.Sleep(20 * time.Millisecond)
 	e.l.Close()
+	if tr, ok := e.orig.(*http.Transport); ok {
+		tr.CloseIdleConnections()
+	}
+	for _, o := range e.orgs {
+		o.srv.Close()
+	}
 	select {
 	case <-e.serve:
 	case <-time.After(5 * time.Second):
@@ -1167,7 +1263,7 @@ func (e *env) finish(all []*client, flags []string) []string {
 
 // stress: k clients race accept/serve against Close, nothing is forced.
 func runStress(in []string) []string {
-	k, sd, slow, scms := 3, uint64(1), false, 0
+	k, sd, slow, scms, realOrigin := 3, uint64(1), false, 0, false
 	for _, t := range in[1:] {
 		switch {
 		case strings.HasPrefix(t, "n:"):
@@ -1176,6 +1272,8 @@ func runStress(in []string) []string {
 			sd, _ = strconv.ParseUint(t[3:], 10, 64)
 		case t == "slow":
 			slow = true
+		case t == "org":
+			realOrigin = true
 		case strings.HasPrefix(t, "sc:"):
 			scms, _ = strconv.Atoi(t[3:])
 		}
@@ -1198,6 +1296,10 @@ func runStress(in []string) []string {
 	if slow {
 		h.sleepy = rng.Fork()
 	}
+	originHost := ""
+	if realOrigin {
+		originHost = e.originAddr(0)
+	}
 	var mu sync.Mutex
 	var all []*client
 	var wg sync.WaitGroup
@@ -1212,6 +1314,9 @@ func runStress(in []string) []string {
 			cl, err := dial(e.addr)
 			if err != nil {
 				return
+			}
+			if originHost != "" {
+				cl.host = originHost
 			}
 			mu.Lock()
 			all = append(all, cl)
@@ -1585,6 +1690,60 @@ func main() {
 				}
 			}
 		}
+		// state of the upstream connection pool when shutdown lands: cold / warm-idle (single connection,
+		// 0 / 1 warm-ups), warm-but-busy (several connections to one origin released together), two origins
+		for _, pt := range []string{"reqmod", "rt", "resmod", "write"} {
+			for w := 0; w <= 1; w++ {
+				n++
+				cfg.Count("pool=single")
+				cfg.Count("point=" + pt)
+				jobs = append(jobs, job{fmt.Sprintf("f%d", n), []string{"F", fmt.Sprintf("sz:%d", pickSz(rng)), fmt.Sprintf("%s.%d/a", pt, w)}})
+			}
+		}
+		for _, in := range [][]string{
+			{"reqmod.1/a", "reqmod.0/a", "async"},
+			{"reqmod.1/a", "reqmod.0/a", "R:1,0"},
+			{"reqmod.0/a", "reqmod.0/a", "reqmod.1/a", "async"},
+			{"rt.0/a", "reqmod.1/a", "async"},
+			{"reqmod.0/a", "reqmod.0/b"},
+			{"reqmod.1/a", "rt.0/b", "resmod.1/a", "async"},
+			{"reqmod.1/au", "reqmod.0/aq", "async"},
+			{"write.1/a", "reqmod.0/a", "R:1,0"},
+		} {
+			n++
+			cfg.Count("pool=multi")
+			jobs = append(jobs, job{fmt.Sprintf("f%d", n), append([]string{"F", fmt.Sprintf("sz:%d", pickSz(rng))}, in...)})
+		}
+		npool := 16
+		if cfg.Thorough() {
+			npool = 150
+		}
+		for i := 0; i < npool; i++ {
+			k := rng.Range(2, 3)
+			in := []string{"F", fmt.Sprintf("sz:%d", pickSz(rng))}
+			np := 0
+			for j := 0; j < k; j++ {
+				pt := []string{"reqmod", "reqmod", "rt", "resmod", "write"}[rng.Intn(5)]
+				oc := []string{"a", "a", "a", "b"}[rng.Intn(4)]
+				if pt != "write" && rng.Chance(1, 4) {
+					oc += []string{"q", "r", "u", "v", "x"}[rng.Intn(5)]
+				}
+				in = append(in, fmt.Sprintf("%s.%d/%s", pt, rng.Intn(2), oc))
+				np++
+			}
+			if ps := perms(np); len(ps) > 1 {
+				in = append(in, orderTok(ps[rng.Intn(len(ps))]))
+			}
+			if rng.Chance(2, 3) {
+				in = append(in, "async")
+			}
+			if rng.Chance(1, 4) {
+				in = append(in, "sc:40")
+			}
+			cfg.Count("pool=mix")
+			n++
+			jobs = append(jobs, job{fmt.Sprintf("f%d", n), in})
+		}
 		for _, oc := range []string{"g", "q", "r", "qr", "gq"} {
 			for w := 0; w <= 1; w++ {
 				n++
@@ -1646,6 +1805,9 @@ func main() {
 			if i%3 == 0 {
 				in = append(in, "sc:25")
 			}
+			if i%4 == 2 {
+				in = append(in, "org")
+			}
 			cfg.Count("kind=stress")
 			jobs = append(jobs, job{fmt.Sprintf("s%d", i+1), in})
 		}
@@ -1683,7 +1845,11 @@ func main() {
 				if i >= len(jobs) {
 					return
 				}
+				t0 := time.Now()
 				o := runCase(jobs[i].in)
+				if d := time.Since(t0); d > 2*time.Second && os.Getenv("VERIF_C07_TIMING") != "" {
+					fmt.Fprintf(os.Stderr, "slow case %s %v: %v\n", jobs[i].name, d, jobs[i].in)
+				}
 				// an environmental failure (port exhaustion, ...) is retried once
 				if len(o) > 0 && o[0] == "ENVFAIL" {
 					time.Sleep(50 * time.Millisecond)
